@@ -90,6 +90,8 @@ pub fn replay(bins: &Bins, file: &str, _verif: &str) -> i32 {
         Some(c17::judge_multi as fn(&Worker, &Scenario, &Exec) -> Judgement)
     } else if prop == "C11" && scen.name.starts_with("first-source-without-fiemap") {
         Some(c11::judge_later_sources as fn(&Worker, &Scenario, &Exec) -> Judgement)
+    } else if prop == "C09" && scen.name.starts_with("same-name-two-dirs") {
+        Some(c09::judge_two_dirs as fn(&Worker, &Scenario, &Exec) -> Judgement)
     } else if prop == "C14" && scen.name.starts_with("same-target") { Some(c14::judge_same_target as fn(&Worker, &Scenario, &Exec) -> Judgement) } else { judge_for(&prop) };
     match jf {
         Some(j) => {
